@@ -279,13 +279,15 @@ class C04(Spec):
     props_module = "Earverif.Props.C04Compose"
     theorems = tuple("Earverif.FileRender." + t for t in (
         "run_frame_count", "run_channel_count", "upmix_column", "dot_single", "overload_iff", "run_failed_iff",
-        "quantise_within_step", "quantise_clips", "run_blocking_invariant", "file_frames_eq_input",
-        "file_render_blocks_frames", "file_samples_eq_spec", "file_render_raises", "exSessionF_wf",
+        "quantise_within_step", "quantise_clips", "run_blocking_invariant", "run_failed_iff_samples", "run_eq_runU",
+        "file_frames_eq_input",
+        "file_render_blocks_frames", "file_samples_eq_spec", "file_eye_upmix_same", "file_render_raises", "exSessionF_wf",
         "file_frames_eq_input_fir", "file_render_blocks_frames_fir")) + tuple("Earverif.FileRenderLayout." + t for t in (
         "speakers_file_channels", "speakers_file_routing", "speakers_file_column_nnz", "upmix_check_iff",
         "speakers_file_check_clean_iff", "parse_speaker_spec", "parse_polar_spec", "screen_null_vs_absent",
         "screen_list_form", "with_real_layout_screen", "load_output_layout_screen", "inside_angle_range_iff",
-        "check_position_iff", "with_speakers_eq_upmix", "eye_identity", "load_output_layout_spec",
+        "check_position_iff", "with_speakers_eq_upmix", "eye_identity", "outBlock_eye", "run_eye_upmix",
+        "load_output_layout_spec",
         "programme_lookup_total", "lookupAll_ok", "get_rendering_items_spec", "get_rendering_items_lookup_error",
         "apply_conversion_spec", "fileParts_spec", "renderCalls_length"))
     trusted_base = (
@@ -560,11 +562,12 @@ SPEC = C04()
 REGISTRY = dict(
     text="PARTIAL: Lean theorems over two hand models. (1) Glue of OfflineRenderDriver.run (Earverif.FileRender.run_frame_count, "
     "run_channel_count, upmix_column, dot_single, overload_iff, run_failed_iff, quantise_within_step, quantise_clips, "
-    "run_blocking_invariant) prove for all block sequences, layouts and speakers lists: frames out = frames the renderer "
+    "run_blocking_invariant, run_failed_iff_samples) prove for all block sequences, layouts and speakers lists: frames out = frames the renderer "
     "returned, one channel per loudspeaker or per output channel of the speakers file, routing/scaling by the speakers file, "
     "overload flag <=> some output sample exceeds full scale (any blocking, incl. empty blocks), failure <=> flag and "
-    "fail_on_overload, written code within one step of the exact sample and clipped outside [-1,1], result independent of "
-    "how the renderer output is cut into blocks. (2) Speakers-file front end on a parsed YAML value "
+    "fail_on_overload (run_failed_iff_samples: failed <=> fail_on_overload and some sample of the scaled, upmixed "
+    "concatenated output has magnitude > 1), written code within one step of the exact sample and clipped outside [-1,1], "
+    "result independent of how the renderer output is cut into blocks. (2) Speakers-file front end on a parsed YAML value "
     "(Earverif.FileRenderLayout.*): speakers_file_channels (with_speakers succeeds => every channel entry is an integer, "
     "rows = 1 + max channel, every listed channel below that, one column per layout channel), speakers_file_routing (each "
     "layout channel goes to the row of the FIRST entry listing its name, Python negative indices included, scaled by its "
@@ -576,7 +579,10 @@ REGISTRY = dict(
     "screen_list_form / with_real_layout_screen / load_output_layout_screen (absent => default screen, null => no screen, "
     "the BS.2051 layout's own screen is never kept), inside_angle_range_iff / check_position_iff (range test = some "
     "whole-turn representative inside [lo, hi]), with_speakers_eq_upmix / eye_identity / load_output_layout_spec (the "
-    "parsed file yields exactly FileRender.upmix / nChannels, identity without a speakers list), programme_lookup_total / "
+    "parsed file yields exactly FileRender.upmix / nChannels, identity without a speakers list; outBlock_eye / "
+    "run_eye_upmix: with n_channels = len(channels) and upmix = eye(n) the WHOLE result record - channel count, codes, "
+    "peaks, failure - equals that of the run without a speakers file, runU being run with n_channels/upmix given "
+    "directly, run_eq_runU), programme_lookup_total / "
     "lookupAll_ok / get_rendering_items_spec / get_rendering_items_lookup_error / apply_conversion_spec (an id that does "
     "not exist is KeyError, a wrong-type element ValueError, never a default; lookups, select, preprocess, convert in that "
     "order). (3) Compositions with the C02/C03 renderer model that has the partitioned overlap-save convolver and the numpy "
@@ -584,10 +590,17 @@ REGISTRY = dict(
     "to file codes - for every session inside SessionWF (accepted timelines, block_size >= 1, tracks inside the input, "
     "decode matrices of the right width, >= 1 decorrelator tap), every input and every blocksize >= 1: reading with "
     "iter_sample_blocks(blocksize) (C18 specIter via fileParts_spec: blocks tile the file), one render per block + one "
-    "get_tail, scaling/upmixing/monitoring/writing succeeds, the written frames are EXACTLY quantise M applied to "
+    "get_tail, scaling/upmixing/monitoring/writing raises no renderer exception and returns the result record res (the "
+    "file is then completely written; the real run afterwards raises 'error: output overloaded' iff res.failed), the "
+    "written frames are EXACTLY quantise M applied to "
     "exactOut = gain * U * RenderSpec.out(input) frame by frame (the sample-by-sample C03 specification; block structure, "
     "latency compensation and tail gone), there are input.length of them with nChannels samples each, and every code is "
-    "within one quantisation step of exact*M inside full scale and +-M outside (quantise_within_step / quantise_clips); "
+    "within one quantisation step of exact*M inside full scale and +-M outside (quantise_within_step / quantise_clips), "
+    "and res.failed <=> fail_on_overload and some sample of exactOut has magnitude > 1 (the property's last sentence "
+    "about the specified output of the whole input, not about renderer blocks; kernel-evaluated instances: loud file with "
+    "the option fails and is written clipped, without the option or quiet it does not); file_eye_upmix_same: for the same "
+    "sessions, a speakers file without a speakers list (upmix = eye(n)) gives the same result record and the same exactOut "
+    "as no speakers file, which is why speakers = none stands for both; "
     "file_frames_eq_input / file_render_blocks_frames are the frame-count corollaries, file_render_raises says a renderer "
     "exception (e.g. IndexError for a track outside the file's channels) aborts the run; exSessionF_wf + a kernel-"
     "evaluated three-frame file are the non-vacuity instances; *_fir are the older statements about the FIR stand-in "
@@ -597,9 +610,15 @@ REGISTRY = dict(
     "load_real_layout / load_speakers / with_real_layout / check_* / load_output_layout / lookup_adm_element / "
     "get_rendering_items / check_upmix_matrix / inside_angle_range vs the model on valid, directed and malformed inputs; the "
     "full contract is additionally evaluated directly. Remaining outside: YAML text parsing (PyYAML), argparse, the "
-    "filesystem, select/preprocess/convert themselves (parameters here; C06/C07/C19), float rounding (C16), Python "
+    "filesystem, select/preprocess/convert themselves (parameters here; C06/C07/C19), float rounding (C16), the "
+    "same-sample-rate / same-bit-depth clause (no theorem: the model's input is a list of exact frames without a format "
+    "chunk, so M is a free parameter of run/runFile and not tied to 2^(bits-1)-1 of the input file, and the sample rate "
+    "only enters through the renderer's Cfg; the clause is covered only by the direct predicate, which compares "
+    "sampleRate, bitdepth, frame count and channel count of every written file with the input's on every run), Python "
     "dynamic-typing corners answered `unsupported` (numeric strings, bool/float channels, null gain).",
     note="Trusted: Lean kernel, the two hand models + correspondence harness; PyYAML/argparse/filesystem not modelled; "
+    "output format chunk (same sample rate / bit depth as the input) not modelled: M is a free parameter of the theorems, "
+    "the clause is checked by the direct predicate only; "
     "in-memory reference uses the library's own Renderer/select_rendering_items; the layout reference (harness/c04_layout.py "
     "reference_output_layout) is written from the documentation and does not call the code under test.",
     technique="Lean 4 proofs (induction over blocks/frames/entries, case analysis of the parser, rational arithmetic) about "
